@@ -68,17 +68,40 @@ Theorem C07_use_then_declare_rejected : forall perm ord st s rest x root names,
 Proof. exact use_then_declare_rejected. Qed.
 Print Assumptions C07_use_then_declare_rejected.
 
-(* Two places where the faithful model violates the property. *)
+(* let elision: names bound by an outer let of the same function are removed from the nonlocal
+   statement (they already mean that let variable) -- all of them, with every occurrence, and no other
+   name.  (Before the fix 87cbe18 the loop mutated the list it iterated and skipped the name after a
+   removed one; the model then refuted this statement with (let [a 1 b 2] (let [c 3] (nonlocal a b) ..)).) *)
+Theorem C07_let_elision : forall P names x, In x (elide P names) <-> In x names /\ P x = false.
+Proof. exact let_elision. Qed.
+Print Assumptions C07_let_elision.
 
-(* (1) names bound by an outer let of the same function are elided from the nonlocal statement --
-   but ScopeLet.define_nonlocal removes them from the list it is iterating over, so the name after
-   a removed one survives: (let [a 1 b 2] (let [c 3] (nonlocal a b) ...)) keeps `nonlocal b`. *)
-Definition C07_let_elision_full : Prop := let_elision_full.
-Theorem C07_let_elision_refuted : ~ let_elision_full.
-Proof. exact let_elision_refuted. Qed.
-Print Assumptions C07_let_elision_refuted.
+Theorem C07_let_elision_counts : forall P names x, count x (elide P names) = if P x then 0 else count x names.
+Proof. exact elide_spec. Qed.
+Print Assumptions C07_let_elision_counts.
 
-(* (2) a class body is not an enclosing scope for `nonlocal`, but the walk counts a class
+Theorem C07_let_define_nonlocal_elides : forall s rest c l,
+  s_kind s = KLet ->
+  let_define_nonlocal (s :: rest) c l RNonlocal false =
+    match let_define_nonlocal rest
+            (set_cell c l (elide (fun x => match lookup x (s_bindings s) with Some _ => true | None => false end)
+                                 (cell_names c l))) l RNonlocal false with
+    | inl (rest', c') => inl (s :: rest', c')
+    | inr e => inr e
+    end.
+Proof. exact let_define_nonlocal_elides. Qed.
+Print Assumptions C07_let_define_nonlocal_elides.
+
+Example C07_let_elision_former_witness :
+  match define_nonlocal (el_inner :: el_outer :: [el_fn; new_scope 0 KGlobal]) [[el_a; el_b]] 0 RNonlocal with
+  | inl (_, c') => cell_names c' 0 = []
+  | inr _ => False
+  end.
+Proof. exact let_elision_former_witness. Qed.
+
+(* One place where the faithful model violates the property. *)
+
+(* a class body is not an enclosing scope for `nonlocal`, but the walk counts a class
    attribute as a binding: with x a class attribute and a module variable, (nonlocal x) in a
    method yields `nonlocal x` (Python: no binding) instead of `global x`. *)
 Definition C07_nonlocal_names_have_function_binding_full : Prop := nonlocal_names_have_function_binding_full.
